@@ -62,6 +62,7 @@ def size_class(n):
     return 0 if n == 0 else 1 if n < 1024 else 2 if n <= 2048 else 3
 
 
+BYTES2TOK = {b: i for i, b in enumerate(POOL)}
 TOK_BY_CLASS = {c: [i for i, b in enumerate(POOL) if size_class(len(b)) == c] for c in range(4)}
 
 
@@ -192,9 +193,7 @@ class MockTarget:
             elif kind == "download":
                 f = io.BytesIO()
                 p.download(self.dec_key(op[1]), f)
-                r = self.hash2tok.get(p.hash_data(io.BytesIO(f.getvalue())), 10 ** 9)
-                if r < len(POOL) and POOL[r] != f.getvalue():
-                    r = 10 ** 9 + 1
+                r = BYTES2TOK.get(f.getvalue(), 10 ** 9)
             elif kind == "hash_oid":
                 r = self.tok(p.hash_oid(self.dec_key(op[1])))
             elif kind == "events":
@@ -215,6 +214,90 @@ class MockTarget:
         except Exception as e:          # noqa
             n = type(e).__name__
             return [1, ERR.get(n, ["exc", n, str(e)[:80]])]
+
+
+class FSTarget(MockTarget):
+    """FileSystemProvider on one temporary namespace directory, wiped between sequences."""
+
+    def __init__(self):
+        from cloudsync.providers.filesystem import FileSystemProvider, get_hash
+        self.oip, self.cs = True, True
+        self.root = os.path.realpath(tempfile.mkdtemp(prefix="c16fs-"))
+        self.p = FileSystemProvider()
+        if not self.p.case_sensitive:
+            raise RuntimeError("case-insensitive temp file system: not modelled")
+        self.p.namespace_id = self.root
+        self.p.connect(None)
+        self.serial, self.rev = {}, {}
+        self.hash2tok = {}
+        for i, b in enumerate(POOL):
+            self.hash2tok.setdefault(get_hash(b), i)       # what hash_oid / info report: blake2b of the whole file
+        self.nlog = 0
+
+    def reset(self):
+        for n in os.listdir(self.root):
+            q = os.path.join(self.root, n)
+            if os.path.isdir(q) and not os.path.islink(q):
+                shutil.rmtree(q)
+            else:
+                os.unlink(q)
+        self.p._hash_cache.clear()
+
+    def close(self):
+        try:
+            self.p.disconnect()
+        finally:
+            shutil.rmtree(self.root, ignore_errors=True)
+
+    def enc_oid(self, oid, learn=False):
+        if oid is None:
+            return ["none"]
+        if oid == self.root:
+            return [1, []]
+        if isinstance(oid, str) and oid.startswith(self.root + "/"):
+            return [1, pparse(oid[len(self.root):])]
+        return ["weird", repr(oid)]
+
+    def dec_key(self, k):
+        if k[0] == 1:
+            return self.root + ("/" + "/".join(k[1]) if k[1] else "")
+        return self.root + "/__never_issued_%d" % k[1]
+
+    def info(self, i, learn=False):
+        if i is None:
+            return []
+        path = pparse(i.path)
+        name = path[-1] if path else []
+        if i.name is not None and [ord(c) for c in i.name] != name:
+            name = ["name", i.name]
+        return [0 if i.otype.value == "file" else 1, self.enc_oid(i.oid), self.tok(i.hash), path, name]
+
+    def new_events(self):
+        return []
+
+    def apply(self, op):
+        r = MockTarget.apply(self, op)
+        if r == [1, 1]:
+            # ENOTDIR is reported as CloudFileExistsError: tell the cases where a proper ancestor is a regular file
+            for x in op[1:]:
+                pth = x[1] if isinstance(x, tuple) and len(x) == 2 and x[0] == 1 and isinstance(x[1], tuple) else x
+                if isinstance(pth, tuple) and all(isinstance(n, str) for n in pth):
+                    for n in range(1, len(pth) - 1):
+                        if os.path.isfile(self.root + "/" + "/".join(pth[:n])):
+                            return [1, 21]
+        return r
+
+    def tree(self):
+        out = [[[], 1, 0]]
+        for dp, dns, fns in os.walk(self.root):
+            rel = pparse(dp[len(self.root):])
+            for n in dns:
+                out.append([rel + [[ord(c) for c in n]], 1, 0])
+            for n in fns:
+                with open(os.path.join(dp, n), "rb") as fh:
+                    b = fh.read()
+                out.append([rel + [[ord(c) for c in n]], 0, POOL.index(b) if b in POOL else 10 ** 9])
+        return sorted(out, key=lambda e: ([tuple(n) for n in e[0]]))
 
 
 def op_wire(op):
@@ -548,6 +631,8 @@ def contract_failures(tgt, ops, results, events):
                 bad.append(("events_complete", dict(step=i, op=op_json(op), events=evs)))
             if k == "delete" and evs and not all(e[4] == 0 for e in evs):
                 bad.append(("events_delete_exists_false", dict(step=i, op=op_json(op), events=evs)))
+            if k == "rename" and i + 1 < len(ops) and ops[i + 1] == ("info_path", op[2]) and results[i + 1] == [0, []]:
+                bad.append(("rename_target_missing", dict(step=i, op=op_json(op))))
             # id stability / oid = path
             if k == "rename":
                 if not tgt.oip and v != key_wire(op[1]) and op[1][0] == 0:
@@ -605,13 +690,240 @@ def state_agreement_failures(tgt, g):
     return bad
 
 
+# ------------------------------------------------------------------ corpus cases (witnesses of findings, run first)
+def op_from_json(o):
+    def conv(x):
+        if isinstance(x, list) and len(x) == 2 and x[0] in (0, 1) and not isinstance(x[1], str) and \
+                (isinstance(x[1], int) or isinstance(x[1], list)) and (x[0] == 0) == isinstance(x[1], int):
+            return (0, x[1]) if x[0] == 0 else (1, tuple(x[1]))
+        if isinstance(x, list):
+            return tuple(x)
+        return x
+    k = o[0]
+    if k in ("rename",):
+        return (k, conv(o[1]), tuple(o[2]))
+    if k in ("upload",):
+        return (k, conv(o[1]), o[2])
+    if k in ("delete", "info_oid", "listdir", "exists_oid", "download", "hash_oid"):
+        return (k, conv(o[1]))
+    if k == "create":
+        return (k, tuple(o[1]), o[2])
+    if k in ("mkdir", "info_path", "exists_path"):
+        return (k, tuple(o[1]))
+    return tuple(o)
+
+
+class _Paths:
+    def __init__(self, ops):
+        self.all_paths = [()]
+        for o in ops:
+            for x in o[1:]:
+                cands = []
+                if isinstance(x, tuple) and (not x or isinstance(x[0], str)):
+                    cands.append(x)
+                if isinstance(x, tuple) and len(x) == 2 and x[0] == 1 and isinstance(x[1], tuple):
+                    cands.append(x[1])
+                for c in cands:
+                    for n in range(len(c) + 1):
+                        if c[:n] not in self.all_paths:
+                            self.all_paths.append(c[:n])
+
+
+def run_ops_on(tgt, ops):
+    results, events = [], []
+    for op in ops:
+        results.append(tgt.apply(op))
+        events.append(tgt.new_events())
+    return results, events
+
+
+def replay_mock_case(case):
+    """-> list of failed laws on the real MockProvider for a corpus sequence"""
+    tgt = MockTarget(*case["flavour"])
+    ops = [op_from_json(o) for o in case["ops"]]
+    results, events = run_ops_on(tgt, ops)
+    return [law for law, _ in contract_failures(tgt, ops, results, events) + state_agreement_failures(tgt, _Paths(ops))]
+
+
+FS_HASH_TITLE = "FileSystemProvider.hash_data differs from hash_oid/info.hash above 2 KiB"
+
+
+def fs_hash_case(tok):
+    return dict(kind="fs-hash-law", token=tok, size=len(POOL[tok]), title=FS_HASH_TITLE)
+
+
+def fs_hash_law_failures(fs, token):
+    """hash law on the real FileSystemProvider for one content: info.hash, hash_oid = hash_data(same bytes)"""
+    fs.reset()
+    data = POOL[token]
+    p = fs.p
+    i = p.create("/h", io.BytesIO(data))
+    hd = p.hash_data(io.BytesIO(data))
+    bad = []
+    if i.hash != hd:
+        bad.append("create.info.hash != hash_data(bytes)")
+    if p.hash_oid(i.oid) != hd:
+        bad.append("hash_oid != hash_data(bytes)")
+    if p.info_path("/h").hash != hd:
+        bad.append("info_path.hash != hash_data(bytes)")
+    f = io.BytesIO()
+    p.download(i.oid, f)
+    if f.getvalue() != data:
+        bad.append("download != uploaded bytes")
+    return bad
+
+
+def fs_event_convert_failures(fs, which):
+    """the translation of one watchdog event (as the installed watchdog builds it) by the real provider"""
+    from watchdog import events as we
+    fs.reset()
+    p = fs.p
+    bad = []
+    if which == "file-created":
+        i = p.create("/e", io.BytesIO(b"x"))
+        ev = p._convert_watchdog_event(we.FileCreatedEvent(i.oid))
+        if ev is None or ev.oid != i.oid or ev.exists is not True or ev.prior_oid is not None:
+            bad.append("create event: oid=%r exists=%r prior_oid=%r" % (getattr(ev, "oid", None), getattr(ev, "exists", None),
+                                                                      getattr(ev, "prior_oid", None) and "<source path>"))
+    elif which == "file-deleted":
+        i = p.create("/e", io.BytesIO(b"x"))
+        p.delete(i.oid)
+        ev = p._convert_watchdog_event(we.FileDeletedEvent(i.oid))
+        if ev is None or ev.oid != i.oid or ev.exists is not False or ev.prior_oid is not None:
+            bad.append("delete event: oid=%r exists=%r" % (getattr(ev, "oid", None), getattr(ev, "exists", None)))
+    elif which == "dir-created":
+        oid = p.mkdir("/ed")
+        ev = p._convert_watchdog_event(we.DirCreatedEvent(oid))
+        if ev is None or ev.oid != oid or ev.exists is not True or ev.prior_oid is not None:
+            bad.append("mkdir event: oid=%r exists=%r" % (getattr(ev, "oid", None), getattr(ev, "exists", None)))
+    elif which == "file-moved":
+        i = p.create("/e", io.BytesIO(b"x"))
+        new = p.rename(i.oid, "/e2")
+        ev = p._convert_watchdog_event(we.FileMovedEvent(i.oid, new))
+        if ev is None or ev.oid != new or ev.exists is not True or ev.prior_oid != i.oid:
+            bad.append("rename event: oid=%r exists=%r" % (getattr(ev, "oid", None), getattr(ev, "exists", None)))
+    return bad
+
+
+def fs_error_class_failures(fs, case):
+    """every failing call raises one of the documented classes"""
+    fs.reset()
+    bad = []
+    for o in case["ops"]:
+        r = fs.apply(op_from_json(o))
+        if r[0] == 1 and not isinstance(r[1], int):
+            bad.append("%s raises %s" % (o[0], r[1][1]))
+    return bad
+
+
+def fs_ancestor_is_file(b, i):
+    return False
+
+
+def replay_corpus(ctx, fs, stats):
+    files = sorted(glob.glob(os.path.join(fw.VERIF, "corpus", "C16", "*.json")))
+    stats["_corpus_cases"] = []
+    for fn in files:
+        case = json.load(open(fn))
+        stats["_corpus_cases"].append(case)
+        kind = case.get("kind")
+        if kind == "mock-seq":
+            bad = replay_mock_case(case)
+        elif kind == "fs-hash-law":
+            bad = fs_hash_law_failures(fs, case["token"]) if fs else []
+        elif kind == "fs-event-convert":
+            bad = fs_event_convert_failures(fs, case["event"]) if fs else []
+        elif kind == "fs-error-class":
+            bad = fs_error_class_failures(fs, case) if fs else []
+        else:
+            bad = ["unknown corpus case kind"]
+        stats["corpus_cases"] += 1
+        if bad:
+            stats["corpus_failing"] += 1
+            ctx.violation("%s: %s" % (case.get("title", kind), "; ".join(sorted(set(bad)))[:300]), case)
+
+
+# ------------------------------------------------------------------ Provider.connect against the model
+def connect_stream(ctx, model, stats, n):
+    from cloudsync.providers.mock import MockProvider
+    from cloudsync.exceptions import CloudTokenError
+
+    class IdProv(MockProvider):
+        """connect_impl answers the identity the credentials belong to (as a real cloud does)"""
+        def connect_impl(self, creds):
+            if not creds:
+                raise CloudTokenError()
+            return "id-%d" % creds["who"]
+    rng = ctx.sub_rng("connect")
+    reqs, impl = [], []
+    for _ in range(n):
+        p = IdProv(False, True)
+        ops, out = [], []
+        for _ in range(rng.randint(1, 8)):
+            x = rng.random()
+            if x < 0.55:
+                who = rng.choice([None, 1, 1, 2, 3])
+                ops.append([0, [] if who is None else [who]])
+                try:
+                    p.connect(None if who is None else {"who": who})
+                    r = 0
+                except CloudTokenError:
+                    r = 1
+            elif x < 0.75:
+                ops.append([1])
+                p.disconnect()
+                r = 0
+            elif x < 0.92:
+                ops.append([2])
+                try:
+                    p.reconnect()
+                    r = 0
+                except CloudTokenError:
+                    r = 1
+            else:
+                i = rng.choice([None, 1, 2])
+                ops.append([3, [] if i is None else [i]])
+                p.connection_id = None if i is None else "id-%d" % i
+                r = 0
+            cid = p.connection_id
+            out.append([r, 1 if p.connected else 0, [] if cid is None else [int(cid[3:])]])
+            # the property itself, on the real code
+            if ops[-1][0] == 0 and ops[-1][1] and r == 1 and p.connected:
+                ctx.violation("connect was refused but the provider is connected", dict(kind="connect", ops=ops))
+        reqs.append([1, ops])
+        impl.append(out)
+    outs = model.batch(reqs)
+    for rq, mo, io_ in zip(reqs, outs, impl):
+        stats["connect_sequences"] += 1
+        if mo != io_:
+            ctx.violation("model and Provider.connect differ on %s: model %s impl %s" % (rq[1], mo, io_),
+                          dict(kind="correspondence-connect", ops=rq[1], model=mo, impl=io_), no_input=True,
+                          theorem="correspondence ProvModel.crun vs Provider.connect")
+            break
+    # the stock MockProvider: another identity in connection_id -> refused and disconnected
+    p = MockProvider(False, True)
+    p.connect({"key": "val"})
+    mine = p.connection_id
+    p.connection_id = "invalid"          # the mock's own way to stand for "these credentials belong to someone else"
+    try:
+        p.connect({"key": "val"})
+        refused = False
+    except CloudTokenError:
+        refused = True
+    if not refused or p.connected:
+        ctx.violation("MockProvider accepted credentials of another identity", dict(kind="connect-mock", mine=bool(mine)))
+
+
 # ------------------------------------------------------------------ main
 def run(ctx):
     envfix.install()
     g = ctx.coq_gate("PropC16")
     dist = fw.Distinct()
     stats = dict(sequences=0, calls=0, op_kinds={}, err_kinds={}, ok_calls=0, unspecified=0,
-                 size_classes={0: 0, 1: 0, 2: 0, 3: 0}, malformed_sequences=0, predicate_evals=0)
+                 size_classes={0: 0, 1: 0, 2: 0, 3: 0}, malformed_sequences=0, clean_sequences=0,
+                 model_wf_states_checked=0, predicate_evals=0, predicate_failures_refuted_flavour={},
+                 corpus_cases=0, corpus_failing=0, connect_sequences=0, fs_sequences=0, fs_calls=0,
+                 fs_hash_oid_missing_raises=0, fs_enotdir_reported_as_exists=0, phase_s={}, fs_inotify_events_seen=0, per_flavour={})
     samples = []
     if g is None:
         return ctx.finish(["(coq gate failed)"])
@@ -623,73 +935,238 @@ def run(ctx):
     model = fw.ModelProc("prov")
     quick = ctx.quick
     nseq = 2000 if quick else 40000
-    t_budget = 38 if quick else 420
     t_start = time.time()
+    t_mock = 18 if quick else 400
+    t_fs = 4 if quick else 90
     mismatches = []
+    fs = None
+    try:
+        try:
+            fs = FSTarget()
+        except Exception as e:      # noqa
+            ctx.notes.append("FileSystemProvider target unavailable: %r" % e)
+            ctx.violation("FileSystemProvider could not be set up on a temp directory: %r" % e, dict(kind="fs-setup"),
+                          no_input=True, theorem="correspondence (filesystem target)")
+        stats["phase_s"]["setup"] = round(time.time() - t_start, 1)
+        # ---- 1. corpus: witnesses of the known findings, deterministic
+        replay_corpus(ctx, fs, stats)
+        # deterministic hash-law sweep on the filesystem provider: every pool content (all size classes)
+        if fs:
+            in_corpus = [c.get("token") for c in stats.pop("_corpus_cases") if c.get("kind") == "fs-hash-law"]
+            for tok in range(len(POOL)):
+                if tok in in_corpus:
+                    continue
+                bad = fs_hash_law_failures(fs, tok)
+                stats["predicate_evals"] += 1
+                if bad:
+                    ctx.violation("FileSystemProvider hash law fails for a %d-byte file: %s" % (len(POOL[tok]), "; ".join(bad)),
+                                  fs_hash_case(tok))
+            # injectivity of the data hash on the contents used (hypothesis H_inj), both providers
+            from cloudsync.providers.mock import MockProvider
+            for name, hd in (("mock", MockProvider(False, True).hash_data), ("filesystem-full-hash", None)):
+                from cloudsync.providers.filesystem import get_hash
+                hs = [hd(io.BytesIO(b)) if hd else get_hash(b) for b in POOL]
+                if len(set(hs)) != len(hs):
+                    ctx.violation("hash collision among the contents used (%s)" % name, dict(kind="hash-inj", which=name),
+                                  no_input=True, theorem="H_inj hypothesis")
 
-    def check_batch(batch, flavour):
-        reqs = [[0, [1 if flavour[0] else 0, 1 if flavour[1] else 0, []], [op_wire(o) for o in b["ops"]]] for b in batch]
-        outs = model.batch(reqs)
-        for b, out in zip(batch, outs):
-            for i, (op, ir, iev, mo) in enumerate(zip(b["ops"], b["results"], b["events"], out)):
-                mres = canon_model_result(op, mo[0], flavour[0])
-                if mres == [1, 5]:
-                    stats["unspecified"] += 1
-                    break
-                if mres != ir or mo[1] != iev:
-                    mismatches.append(dict(flavour=list(flavour), ops=[op_json(o) for o in b["ops"][:i + 1]], step=i,
-                                           model=[mres, mo[1]], impl=[ir, iev]))
-                    break
+        stats["phase_s"]["corpus+sweeps"] = round(time.time() - t_start, 1)
 
-    for flavour in FLAVOURS:
-        rng = ctx.sub_rng("mock%s%s" % flavour)
-        batch = []
-        per_flavour_deadline = t_start + t_budget * (FLAVOURS.index(flavour) + 1) / len(FLAVOURS)
-        for si in range(nseq):
-            if time.time() > per_flavour_deadline:
-                break
-            malformed = rng.random() < 0.15
-            tgt = MockTarget(*flavour)
-            ops, results, events, gen = gen_sequence(rng, tgt, malformed, NAMES + (DOT_NAMES if malformed else []))
-            for q in final_queries(rng, gen, full=(si % 4 == 0)):
-                ops.append(q)
-                results.append(tgt.apply(q))
-                events.append(tgt.new_events())
-            batch.append(dict(ops=ops, results=results, events=events))
-            stats["sequences"] += 1
-            stats["malformed_sequences"] += 1 if malformed else 0
+        # ---- 2. MockProvider x 4 flavours
+        def check_batch(batch, flavour, target_name):
+            reqs = [[0, [1 if flavour[0] else 0, 1 if flavour[1] else 0, []], [op_wire(o) for o in b["ops"]]] for b in batch]
+            outs = model.batch(reqs)
+            for b, out in zip(batch, outs):
+                clean = True
+                for i, (op, ir, iev, mo, fl) in enumerate(zip(b["ops"], b["results"], b["events"], out[0], out[1])):
+                    mres = canon_model_result(op, mo[0], flavour[0])
+                    clean = clean and fl[0] == 1
+                    if mres == [1, 5]:
+                        stats["unspecified"] += 1
+                        clean = False
+                        break
+                    if target_name == "fs":
+                        if not clean:
+                            break           # outside the engine's calls the two providers are not meant to agree
+                        if op[0] == "hash_oid" and ir[0] == 1 and mres == [0, []]:
+                            stats["fs_hash_oid_missing_raises"] += 1
+                            continue
+                        if ir == [1, 21] or (ir == [1, 1] and mres == [1, 2] and op[0] in ("download", "create", "mkdir", "rename")
+                                             and fs_ancestor_is_file(b, i)):
+                            if mres in ([1, 2], [1, 1]):
+                                stats["fs_enotdir_reported_as_exists"] += 1
+                                continue
+                        same = mres == ir
+                    else:
+                        same = mres == ir and mo[1] == iev
+                    if not same:
+                        mismatches.append(dict(target=target_name, flavour=list(flavour),
+                                               ops=[op_json(o) for o in b["ops"][:i + 1]], step=i,
+                                               model=[mres, mo[1]], impl=[ir, iev]))
+                        break
+                    if clean and (flavour[0] is False or flavour[1] is True):
+                        stats["model_wf_states_checked"] += 1
+                        if fl[1] != 1:
+                            ctx.violation("model state not well-formed after a clean call sequence: %s"
+                                          % json.dumps([op_json(o) for o in b["ops"][:i + 1]])[:300],
+                                          dict(kind="model-wf", flavour=list(flavour),
+                                               ops=[op_json(o) for o in b["ops"][:i + 1]]),
+                                          no_input=True, theorem="C16_prov_wf (monitored; bounded proof only)")
+                            break
+                b["clean"] = clean
+
+        def account(ops, results, key):
+            pf = stats["per_flavour"].setdefault(key, dict(sequences=0, calls=0, ok=0))
+            pf["sequences"] += 1
+            pf["calls"] += len(ops)
             stats["calls"] += len(ops)
             for op, r in zip(ops, results):
                 stats["op_kinds"][op[0]] = stats["op_kinds"].get(op[0], 0) + 1
                 if r[0] == 0:
                     stats["ok_calls"] += 1
+                    pf["ok"] += 1
                 else:
-                    ek = str(r[1])
+                    ek = str(r[1])[:40]
                     stats["err_kinds"][ek] = stats["err_kinds"].get(ek, 0) + 1
                 if op[0] in ("create", "upload"):
                     stats["size_classes"][size_class(len(POOL[op[2]]))] += 1
-            dist.add((flavour, [op_json(o) for o in ops]), nontrivial=any(o[0] in MUTATORS for o in ops))
-            if si < 1 and len(samples) < 4:
-                samples.append(dict(flavour=dict(oid_is_path=flavour[0], case_sensitive=flavour[1]),
-                                    ops=[op_json(o) for o in ops[:6]], results=results[:6]))
-            if len(batch) >= 100:
-                check_batch(batch, flavour)
-                batch = []
-        if batch:
-            check_batch(batch, flavour)
-    model.close()
+
+        for fi, flavour in enumerate(FLAVOURS):
+            rng = ctx.sub_rng("mock%s%s" % flavour)
+            batch, pending = [], []
+            deadline = time.time() + t_mock / len(FLAVOURS)
+            refuted_flavour = flavour == (True, False)
+
+            def flush():
+                check_batch(batch, flavour, "mock")
+                for b in batch:
+                    # the property's statements on the real provider, wherever the theorem's hypotheses hold
+                    if not b["clean"]:
+                        continue
+                    stats["clean_sequences"] += 1
+                    stats["predicate_evals"] += 1
+                    bad = contract_failures(b["tgt"], b["ops"], b["results"], b["events"]) + b["agree"]
+                    for law, d in bad[:1]:
+                        if refuted_flavour:
+                            k = stats["predicate_failures_refuted_flavour"]
+                            k[law] = k.get(law, 0) + 1
+                        else:
+                            ctx.violation("MockProvider%s breaks %s on a clean call sequence: %s"
+                                          % (flavour, law, json.dumps([op_json(o) for o in b["ops"]])[:300]),
+                                          dict(kind="mock-seq", flavour=list(flavour), law=law, detail=d,
+                                               ops=[op_json(o) for o in b["ops"]]))
+                del batch[:]
+            for si in range(nseq):
+                if time.time() > deadline:
+                    break
+                malformed = rng.random() < 0.15
+                tgt = MockTarget(*flavour)
+                ops, results, events, gen = gen_sequence(rng, tgt, malformed, NAMES + (DOT_NAMES if malformed else []))
+                agree = state_agreement_failures(tgt, gen) if si % 3 == 0 else []
+                for q in final_queries(rng, gen, full=(si % 4 == 0)):
+                    ops.append(q)
+                    results.append(tgt.apply(q))
+                    events.append(tgt.new_events())
+                batch.append(dict(ops=ops, results=results, events=events, tgt=tgt, agree=agree))
+                stats["sequences"] += 1
+                stats["malformed_sequences"] += 1 if malformed else 0
+                account(ops, results, "mock oid_is_path=%s case_sensitive=%s" % flavour)
+                dist.add((flavour, [op_json(o) for o in ops]), nontrivial=any(o[0] in MUTATORS for o in ops))
+                if si < 1 and len(samples) < 4:
+                    samples.append(dict(flavour=dict(oid_is_path=flavour[0], case_sensitive=flavour[1]),
+                                        ops=[op_json(o) for o in ops[:6]], results=results[:6]))
+                if len(batch) >= 100:
+                    flush()
+            if batch:
+                flush()
+
+        stats["phase_s"]["mocks"] = round(time.time() - t_start, 1)
+        # ---- 3. FileSystemProvider on a temp directory (path-style, case-sensitive), synchronous API only
+        if fs:
+            rng = ctx.sub_rng("fs")
+            deadline = time.time() + t_fs
+            batch = []
+            nfs = 400 if quick else 8000
+            for si in range(nfs):
+                if time.time() > deadline:
+                    break
+                fs.reset()
+                g_ = Gen(rng, fs, False, [n for n in NAMES])
+                ops, results, events = [], [], []
+                for _ in range(rng.randint(1, 30)):
+                    op = g_.next_op()
+                    if op[0] in ("events", "set_cursor"):
+                        continue
+                    todo = [op]
+                    while todo:
+                        o = todo.pop(0)
+                        r = fs.apply(o)
+                        ops.append(o)
+                        results.append(r)
+                        events.append([])
+                        g_.note(o, r)
+                        if o is op and op[0] in MUTATORS:
+                            todo += touched_queries(rng, op, r, g_)
+                agree = state_agreement_failures(fs, g_)
+                for law, d in agree[:1]:
+                    if law == "hash_law" and d.get("size", 0) > 2048:
+                        continue        # the known defect; its deterministic witnesses are in the sweep above
+                    ctx.violation("FileSystemProvider breaks %s: %s" % (law, json.dumps([op_json(o) for o in ops])[:300]),
+                                  dict(kind="fs-seq", law=law, detail=d, ops=[op_json(o) for o in ops]))
+                for q in [("tree",)] + [x for x in final_queries(rng, g_, full=True) if x[0] not in ("tree", "events")]:
+                    ops.append(q)
+                    results.append(fs.apply(q))
+                    events.append([])
+                batch.append(dict(ops=ops, results=results, events=events))
+                stats["fs_sequences"] += 1
+                stats["fs_calls"] += len(ops)
+                account(ops, results, "filesystem")
+                dist.add(("fs", [op_json(o) for o in ops]), nontrivial=any(o[0] in MUTATORS for o in ops))
+                if len(batch) >= 50:
+                    check_batch(batch, (True, True), "fs")
+                    batch = []
+            if batch:
+                check_batch(batch, (True, True), "fs")
+            # inotify: counted, never compared (asynchronous; and see the event-translation finding)
+            if not quick:
+                time.sleep(2.0)
+            stats["fs_inotify_events_seen"] = len(list(fs.p.events()))
+
+        stats["phase_s"]["fs"] = round(time.time() - t_start, 1)
+        # ---- 4. Provider.connect
+        connect_stream(ctx, model, stats, 300 if quick else 5000)
+        stats["phase_s"]["connect"] = round(time.time() - t_start, 1)
+    finally:
+        model.close()
+        if fs:
+            fs.close()
+    stats["phase_s"]["closed"] = round(time.time() - t_start, 1)
     stats["model_calls"] = model.calls
     for m in mismatches[:5]:
-        ctx.violation("model and MockProvider differ at step %d of %s: model %s impl %s"
-                      % (m["step"], json.dumps(m["ops"])[:300], m["model"], m["impl"]),
+        ctx.violation("model and %s differ at step %d of %s: model %s impl %s"
+                      % (m["target"], m["step"], json.dumps(m["ops"])[:300], str(m["model"])[:200], str(m["impl"])[:200]),
                       dict(kind="correspondence", **m), no_input=True,
-                      theorem="correspondence ProvModel.run vs MockProvider")
+                      theorem="correspondence ProvModel.run vs %s" % m["target"])
     stats["mismatches"] = len(mismatches)
+    stats["wall_s"] = round(time.time() - t_start, 1)
     cov = ctx.coverage
-    cov["evaluations"] = dist.total
+    cov["evaluations"] = dist.total + stats["connect_sequences"]
     cov["distinct_nontrivial"] = dist.nontrivial
-    cov["rule"] = "a sequence is non-trivial when it contains at least one mutating call; distinct = distinct (flavour, call list)"
+    cov["rule"] = ("one evaluation = one API call sequence (1-30 calls plus the queries about what each call touched and a final "
+                   "tree/listing/info sweep) run on the real provider and on the extracted model; non-trivial = contains at least "
+                   "one mutating call; distinct = distinct (target, flavour, call list)")
+    cov["exhaustive"] = False
     cov["samples"] = samples
     cov["streams"] = stats
-    cov["traces_validated_against_impl"] = stats["sequences"]
-    return ctx.finish(["(draft)"])
+    cov["traces_validated_against_impl"] = stats["sequences"] + stats["fs_sequences"] + stats["connect_sequences"]
+    tb = ["Coq 8.16.1 kernel (coqc); vm_compute for the two _refuted witnesses and the Examples; no native_compute",
+          "axioms per theorem as printed by Print Assumptions: " + (", ".join(cov.get("axioms_used", [])) or "none (closed under the global context)"),
+          "hypothesis of C16_hash_equal_iff_bytes_equal: the data hash is injective (checked: no collision among the contents used, "
+          "md5 for the mock, blake2b for the filesystem provider); contents are abstract tokens in the model",
+          "per-character case fold fold_std = str.lower() (checked on every character of the name alphabet)",
+          "extraction: ExtrOcamlBasic only; OCaml 4.13.1; coq/ocaml/driver.ml",
+          "correspondence harness harness/checks/c16.py (generator, canonicalisation: oids -> serials, hashes -> content tokens, "
+          "listings sorted, mtimes dropped); it reads MockProvider._events and MockFS._objects to compare the log and the tree",
+          "modelled, not verified: path strings not in normal form (C13), quota, namespaces, test locks, _filter_events/root filtering, "
+          "oidless_folder_trash_events; watchdog/inotify delivery; the OS file system; Windows/macOS branches of FileSystemProvider"]
+    return ctx.finish(tb)
